@@ -37,6 +37,43 @@ type FaultDB struct {
 	count   int
 	created bool // CreateChangeInfos took effect since arming
 	fired   *Fault
+
+	parkName string        // the next call of this name blocks ...
+	parkGo   chan struct{} // ... until this is closed
+	parkAt   chan struct{} // closed when the call has been reached
+}
+
+// ParkAt makes the next intercepted call named name block until release is called; reached is
+// closed when a handler has arrived there.
+func (f *FaultDB) ParkAt(name string) (reached <-chan struct{}, release func()) {
+	f.mu.Lock()
+	defer f.mu.Unlock()
+	f.parkName, f.parkGo, f.parkAt = name, make(chan struct{}), make(chan struct{})
+	goCh := f.parkGo
+	var once sync.Once
+	return f.parkAt, func() {
+		once.Do(func() {
+			f.mu.Lock()
+			if f.parkGo == goCh {
+				f.parkName = ""
+			}
+			f.mu.Unlock()
+			close(goCh)
+		})
+	}
+}
+
+func (f *FaultDB) maybePark(name string) {
+	f.mu.Lock()
+	if f.parkName != name {
+		f.mu.Unlock()
+		return
+	}
+	f.parkName = ""
+	at, goCh := f.parkAt, f.parkGo
+	f.mu.Unlock()
+	close(at)
+	<-goCh
 }
 
 // InstallFaultDB wraps the backend's database (idempotent).
@@ -128,6 +165,7 @@ func (f *FaultDB) CreateChangeInfos(ctx context.Context, docRefKey types.DocRefK
 }
 
 func (f *FaultDB) UpdateMinVersionVector(ctx context.Context, clientInfo *database.ClientInfo, docRefKey types.DocRefKey, vector time.VersionVector) (time.VersionVector, error) {
+	f.maybePark("UpdateMinVersionVector")
 	b, a := f.hit("UpdateMinVersionVector")
 	if b {
 		return nil, ErrInjected
@@ -152,6 +190,7 @@ func (f *FaultDB) GetMinVersionVector(ctx context.Context, docRefKey types.DocRe
 }
 
 func (f *FaultDB) UpdateClientInfoAfterPushPull(ctx context.Context, clientInfo *database.ClientInfo, docInfo *database.DocInfo) error {
+	f.maybePark("UpdateClientInfoAfterPushPull")
 	b, a := f.hit("UpdateClientInfoAfterPushPull")
 	if b {
 		return ErrInjected
@@ -164,6 +203,7 @@ func (f *FaultDB) UpdateClientInfoAfterPushPull(ctx context.Context, clientInfo 
 }
 
 func (f *FaultDB) FindChangeInfosBetweenServerSeqs(ctx context.Context, docRefKey types.DocRefKey, from int64, to int64) ([]*database.ChangeInfo, error) {
+	f.maybePark("FindChangeInfosBetweenServerSeqs")
 	b, a := f.hit("FindChangeInfosBetweenServerSeqs")
 	if b {
 		return nil, ErrInjected
